@@ -596,6 +596,7 @@ func (staticEngine) Corpus() []Case {
 		return []string{
 			p + "/a.css", p + "/css/site.css", p + "/css/", p + "/css", p + "/css/index.html", p + "/", p, p + "/nodejs", p + "/x.ejs",
 			p + "/../secret.css", p + "/%2e%2e/secret.css", p + "/..%2fsecret.css", p + "/%2e%2e%2fsecret.css",
+			p + "/../secret.css?download", p + "/%2e%2e/secret.css?download=1", p + "/sub/../../secret.css?download", p + "/a.css?download", p + "/%2e%2e%2fsecret.css?attachment=1&download",
 			p + "/../www-private/secret.css", p + "/%2e%2e/www-private/secret.css", p + "/..%2fwww-private%2fsecret.css",
 			p + "/css/../../www-private/secret.css", p + "/css/..%2f..%2fwww-private/secret.css",
 			p + "/../www/a.css", p + "/..%5c..%5csecret.css", p + "/..\\secret.css", p + "/%2e%2e%5csecret.css",
